@@ -1,5 +1,6 @@
 import AndaVerif.Model.CollCrash
 import AndaVerif.Gen.CollOrder
+import AndaVerif.Proofs.CollRecFrame
 /-
 C04 / C02 "after crash recovery": uniqueness and index ⟷ document agreement when a unique value
 changed hands between the last flush and a power loss.
@@ -29,6 +30,13 @@ What is proved here:
   missing from the unique index (the repair scan meets the holder's stale posting and skips the
   document): the order fact is load-bearing, not decoration.
 * `recover_idempotent_on_class` — a second power loss right after recovery changes nothing.
+
+Proved for EVERY durable state, phase order and replay structure (no class, no bound): recovery and a
+power loss never rewrite or lose a stored document object or the schema (`recover_preserves_docs`,
+`crash_preserves_docs`), recovery retires every intent, never moves the checkpoint backwards and leaves
+the process clean (`recover_retires_intents`, `recover_checkpoint_mono`, `recover_not_dirty`), and a
+power loss with no intent on disk and no document above the checkpoint restores exactly the last flush
+(`crash_after_flush_is_last_flush`) — the frame half of `agrees_after_recover_full`.
 
 Not proved (measured by the harness on every generated `crash`, ≈ 0.6–0.9 per history): agreement
 after recovery for *every* history (`agrees_after_recover_full` below is only stated). The invariant
@@ -306,5 +314,66 @@ def agrees_after_recover_full : Prop :=
     agreesB (drun (dinit schema) (ops ++ [.crash])).s = true
 
 example : disciplined false (handoverOps ⟨.tuple, true, true, false, true, true⟩) = true := by decide
+
+
+-- ------------------------------------------------------------------------------------------------
+-- proved for EVERY durable state (no bound on history, documents or indexes): what recovery may not touch
+-- (helper lemmas: Proofs/CollRecFrame.lean)
+-- ------------------------------------------------------------------------------------------------
+
+/-- **Recovery never rewrites a stored document** — for every durable state, every phase order and
+either replay structure: the document objects and the schema after `recoverWith` are the ones before. -/
+theorem recover_preserves_docs (cfg : RecCfg) (x : DState) : Frame x.s (recoverWith cfg x).s := by
+  unfold recoverWith
+  exact Frame.trans (phases_frame cfg x cfg.phases x.s) (dflush_frame _)
+
+/-- **A power loss at a quiescent point loses no document object and changes none**, whatever the history
+before it: the documents visible to the recovered process are exactly those written before the crash. -/
+theorem crash_preserves_docs (cfg : RecCfg) (x : DState) :
+    (dstepWith cfg x .crash).1.s.docs = x.s.docs ∧ (dstepWith cfg x .crash).1.s.schema = x.s.schema := by
+  have h := recover_preserves_docs cfg (crashLoad x)
+  exact ⟨h.1, h.2⟩
+
+/-- recovery ends with every intent retired (the flush `open_collection` ends with), for every state -/
+theorem recover_retires_intents (cfg : RecCfg) (x : DState) : (recoverWith cfg x).intents = [] := by
+  unfold recoverWith dflush; rfl
+
+/-- the checkpoint never moves backwards across a recovery -/
+theorem recover_checkpoint_mono (cfg : RecCfg) (x : DState) : x.checkpoint ≤ (recoverWith cfg x).checkpoint := by
+  unfold recoverWith dflush
+  simp only
+  split
+  · exact Nat.le_max_left _ _
+  · exact Nat.le_refl _
+
+/-- the recovered process is never left refusing writes (`poisoned`) and never left dirty -/
+theorem recover_not_dirty (cfg : RecCfg) (x : DState) : (recoverWith cfg x).s.dirty = false := by
+  unfold recoverWith dflush
+  exact flush_not_dirty _
+
+/-- **A power loss with no intent on disk and no document above the checkpoint restores exactly the last
+flush** (ids, every index, allocator), for every state — nothing is repaired, nothing is marked dirty,
+so the recovery's closing flush writes nothing either. -/
+theorem crash_after_flush_is_last_flush (x : DState) (hi : x.intents = [])
+    (hc : ∀ p ∈ x.s.docs, p.1 ≤ x.checkpoint) :
+    let y := (dstep x .crash).1
+    y.s.ids = x.dIds ∧ y.s.ix = { x.dIx with bt := reorder x.dIx.bt } ∧ y.s.maxId = x.s.savedMax ∧
+    y.dIds = x.dIds ∧ y.dIx = x.dIx ∧ y.checkpoint = x.checkpoint := by
+  have hf : ((sortAsc (x.s.docs.map (·.1))).filter (fun i => decide (x.checkpoint < i))) = [] := by
+    rw [List.filter_eq_nil_iff]
+    intro i him
+    rw [mem_sortAsc, List.mem_map] at him
+    obtain ⟨p, hp, rfl⟩ := him
+    have := hc p hp
+    simp only [decide_eq_true_eq]; omega
+  simp only [dstep, dstepWith, recoverWith, codeCfg, codePhases, List.foldl_cons, List.foldl_nil, runPhase,
+    crashLoad, replayWith, hi, List.isEmpty_nil, if_true, repairScan, hf, dflush, flush]
+  simp
+
+/-- non-vacuity: a flushed two-document state with a unique index meets the hypotheses of
+`crash_after_flush_is_last_flush`, and a crash with an intent pending is outside them -/
+example :
+    let x := drun (dinit hSchema) ((handoverOps ⟨.tuple, true, true, false, true, true⟩).takeWhile (fun o => match o with | .crash => false | _ => true) ++ [.op .flush])
+    x.intents = [] ∧ (x.s.docs.all (fun p => decide (p.1 ≤ x.checkpoint))) = true ∧ x.s.docs ≠ [] := by decide
 
 end AndaVerif.Collection.Crash
